@@ -274,3 +274,23 @@ def validate_batch(spec, cfg, events, *, idkey="tid", workers=None, timeout=3600
         raise MachineryFailure("TLC produced no verdict for %d of %d events (first id %s)\n%s"
                                % (len(missing), len(ids), missing[0], res.out[-3000:]))
     return res, verdicts
+
+
+def record_test_suite(tests="tests"):
+    """Run the repository's own tests (guard CATII_VERIF=1, external pytest plugin harness.pytest_recorder) against the
+    rebuilt kernel and return the recorded events: {"index": [...], "cube": [...], "skipped": {...}, "recorded": {...}}."""
+    wd = workdir("suite")
+    out = wd / "recorded.json"
+    env = dict(os.environ, CATII_VERIF="1", CATII_VERIF_OUT=str(out), PYTHONHASHSEED="0",
+               PYTHONPATH="%s:%s" % (VERIF, REPO / "src"))
+    boot = ("import sys; sys.path.insert(0, %r); from harness import build; build.load_catii('plain'); "
+            "import pytest; sys.exit(pytest.main(['-q', '-p', 'no:cacheprovider', '-p', 'harness.pytest_recorder', %r]))"
+            % (str(VERIF), tests))
+    try:
+        p = subprocess.run([sys.executable, "-c", boot], cwd=str(REPO), env=env, capture_output=True, text=True, timeout=1800)
+        if not out.exists():
+            raise MachineryFailure("test-suite recording produced no events\n" + (p.stdout + p.stderr)[-1500:])
+        data = json.loads(out.read_text())
+    finally:
+        shutil.rmtree(wd, ignore_errors=True)
+    return data
